@@ -2,7 +2,9 @@
 import common
 
 SCEN = {
-    "C01": ["serial_mix", "async_flood", "handoff_to_concurrent_target", "hierarchy", "pool_blocked"],
+    # C01 ("every item runs, every synchronous call returns") is judged on every scenario: the watchdog reports a stuck run as C01
+    "C01": ["serial_mix", "async_flood", "handoff_to_concurrent_target", "hierarchy", "pool_blocked", "serial_syncish", "serial_each_api",
+            "hierarchy_workloop", "concurrent_barriers", "concurrent_each_api", "width_exhaustion"],
     "C02": ["serial_mix", "serial_syncish", "serial_each_api"],
     "C03": ["hierarchy", "hierarchy_workloop"],
     "C04": ["concurrent_barriers", "concurrent_each_api", "width_exhaustion"],
@@ -56,14 +58,20 @@ def run(ctx, pid):
 
 def replay(ctx, obj):
     exe, msg = common.build_harness("c01_lanes", ["c01_lanes.c"], whitebox=False, extra=["-I" + common.VERIF + "/harness"])
+    reproduced = False
     for f in obj.get("failures", []):
         print("recorded:", f.get("what"))
-        if "scenario" in f:
-            r = common.run([exe, str(f["seed"]), f["scenario"], str(f["permille"]), "1"], timeout=240)
-            print("  re-run:", "; ".join(l for l in r.stdout.split("\n") if l.startswith("FAIL"))[:600] or "no failure this time")
+        if "scenario" in f and "seed" in f and "permille" in f:
+            r = common.run([exe, str(f["seed"]), f["scenario"], str(f["permille"]), "1"], timeout=600)
+            again = [l for l in r.stdout.split("\n") if l.startswith("FAIL")]
+            if again or r.returncode not in (0, 1, 3):
+                reproduced = True
+            print("  re-run:", "; ".join(again)[:600] or ("client died rc %s" % r.returncode if r.returncode not in (0, 1, 3) else "no failure this time"))
+        else:
+            reproduced = True   # nothing to re-execute for this entry: keep the recorded verdict
     for b in obj.get("broken", []):
         print("no longer checks:", b)
-    return 1
+    return 1 if (reproduced or obj.get("broken") or not obj.get("failures")) else 0
 
 
 def merge(parts):
@@ -96,13 +104,18 @@ def run_part(label, fn, ctx):
 
 def replay_parts(ctx, obj, parts):
     """parts = {label: replay function}; failures carry their part label (absent = lanes oracle)"""
-    rc = 1
+    rc = 0
+    ran = False
     for label, fn in parts.items():
         sub = {"failures": [f for f in obj.get("failures", []) if f.get("part", "lanes") == label],
                "broken": [b for b in obj.get("broken", []) if isinstance(b, dict) and isinstance(b.get("detail"), dict) and b["detail"].get("part", "lanes") == label]}
         if sub["failures"] or sub["broken"]:
-            fn(ctx, sub)
+            ran = True
+            r = fn(ctx, sub)
+            rc = max(rc, r if isinstance(r, int) else 1)
     rest = [b for b in obj.get("broken", []) if not (isinstance(b, dict) and isinstance(b.get("detail"), dict) and "part" in b["detail"])]
     for b in rest:
         print("no longer checks:", b)
+    if rest or not ran:
+        rc = max(rc, 1)     # ties that no longer check are re-established only by a full run of the check
     return rc
